@@ -1,0 +1,5 @@
+//go:build !verif
+
+package mutable
+
+func verifYield(site string) {}
